@@ -659,6 +659,10 @@ package vegeta
 //@   requires [scanner-ready] sc.src != nil && !held(&mu) && scanleft(sc.src) >= 0
 //@   requires [package-initialised] ErrNilTarget != nil && ErrNoTargets != nil && httpMethodChecker != nil
 //@   modifies *tgt, sc.peeked, *sc.src
+//@   ghost bodyLine bool = false
+//@   at call ReadFile: ghost bodyLine = true
+//@   before call Scan: assert [the-body-line-ends-the-target-nothing-is-read-after-it] !bodyLine
+//@   before call Peek: assert [the-body-line-ends-the-target-nothing-is-read-after-it] !bodyLine
 //@   ensures [nil-target-rejected] tgt == nil ==> err == ErrNilTarget
 //@   ensures [own-header-map] err == nil ==> tgt.Header != nil && fresh(tgt.Header)
 //@   ensures [own-header-values] err == nil ==> (forall k string :: cap(tgt.Header[k]) > 0 ==> fresh(tgt.Header[k]))
@@ -670,7 +674,7 @@ package vegeta
 //@     invariant held(&mu) && tgt != nil && tgt == old(tgt) && sc.src == old(sc.src) && sc.src != nil && tgt.Header != nil && fresh(tgt.Header) && hdr == old(hdr) && scanleft(sc.src) >= 0
 //@     invariant forall k string :: cap(tgt.Header[k]) > 0 ==> fresh(tgt.Header[k])
 //@   loop 3
-//@     invariant held(&mu) && tgt != nil && tgt == old(tgt) && sc.src == old(sc.src) && sc.src != nil && tgt.Header != nil && fresh(tgt.Header) && scanleft(sc.src) >= 0
+//@     invariant held(&mu) && tgt != nil && tgt == old(tgt) && sc.src == old(sc.src) && sc.src != nil && tgt.Header != nil && fresh(tgt.Header) && scanleft(sc.src) >= 0 && !bodyLine
 //@     invariant forall k string :: cap(tgt.Header[k]) > 0 ==> fresh(tgt.Header[k])
 //@     invariant len(tokens) >= 2
 //@     decreases scanleft(sc.src) + (sc.peeked != "" ? 1 : 0)
@@ -925,6 +929,7 @@ package vegeta
 //@   before call RawByte: assert [newline-after-the-record] marshalled == 1 && arg1 == 10 && newline == 0 ; ghost newline = newline + 1
 //@   before call DumpTo: assert [whole-record-then-newline-then-one-write] marshalled == 1 && newline == 1 && dumps == 0 ; ghost dumps = dumps + 1
 //@   ensures [one-whole-record-per-call] marshalled == 1 && dumps <= 1 && (dumps == 1 ==> newline == 1)
+//@   forbid [a-failed-marshal-stays-with-the-writer-so-its-partial-bytes-are-never-written] store jw.Error
 
 // gob: one Decode / Encode of the library per call (framing is the library's: not covered).
 //@ func NewDecoder$1
